@@ -30,6 +30,8 @@ def persist_precip(cfg):
                 ev.append({"e": "cmp", "name": "%s[%d]" % (attr, p), "c": arr_cmp(getattr(m.PBM[p], attr), getattr(m2.PBM[p], attr), 0.0)})
             for attr in ("min", "max", "bins"):
                 ev.append({"e": "cmp", "name": "%s[%d]" % (attr, p), "c": arr_cmp([getattr(m.PBM[p], attr)], [getattr(m2.PBM[p], attr)], 0.0)})
+            # the aspect ratio of every size class is part of the current state (constant, user function, or from the strain energy)
+            ev.append({"e": "cmp", "name": "eqAspectRatio[%d]" % p, "c": arr_cmp(np.asarray(m.eqAspectRatio[p], dtype=float), np.asarray(m2.eqAspectRatio[p], dtype=float), 0.0)})
         ev.append({"e": "cmp", "name": "currentX", "c": arr_cmp(np.concatenate(m.getCurrentX()[1]), np.concatenate(m2.getCurrentX()[1]), 0.0)})
         ev.append({"e": "cmp", "name": "currentTime", "c": arr_cmp([m.getCurrentX()[0]], [m2.getCurrentX()[0]], 0.0)})
         # save -> load -> save is idempotent
